@@ -271,6 +271,8 @@ pub struct Env {
     /// properties de-synchronise the model: the history goes on with the model-independent monitors only
     pub focus: Vec<&'static str>,
     pub desynced: bool,
+    /// the rest of a scripted episode (see gen_op)
+    pub pending: std::cell::RefCell<std::collections::VecDeque<Op>>,
     /// extended-domain history that also produces huge entries with unaligned addresses
     pub corrupt: bool,
     pub ext: bool,
@@ -566,6 +568,7 @@ pub fn new_env(kind: Kind, r: &mut Rng, nframes: usize) -> Env {
         last_pf: std::cell::RefCell::new(Vec::new()),
         focus: Vec::new(),
         desynced: false,
+        pending: std::cell::RefCell::new(std::collections::VecDeque::new()),
         corrupt: false,
         ext: false,
         fail_all_next: false,
@@ -659,6 +662,94 @@ fn gen_frame(r: &mut Rng, env: &Env, lvl: u8) -> u64 {
 }
 
 pub fn gen_op(r: &mut Rng, env: &Env, u: &Universe, focus: &str) -> Op {
+    // scripted episodes: short call sequences in which each call depends on the one before (the same 2 MiB region mapped,
+    // emptied, cleaned up and mapped again; parent rights dropped and asked for again ...), which independent uniform
+    // choices would produce about never
+    if let Some(op) = env.pending.borrow_mut().pop_front() {
+        return op;
+    }
+    if r.chance(1, if focus == "c10" { 150 } else { 600 }) {
+        // many empty sibling tables under one parent, released by one clean-up (batching, counters, buffers in the crate)
+        let a = gen_page(r, u, 1) & !0x3fff_ffff;
+        let n = 30 + r.below(12);
+        let mut q: Vec<Op> = Vec::new();
+        let pages: Vec<u64> = (0..n).map(|k| a | (k << 21) | (r.below(512) << 12)).collect();
+        for &pg in pages.iter() {
+            q.push(Op::Map { lvl: 1, page: pg, frame: gen_frame(r, env, 1), flags: gen_leaf_flags(r, 1), pflags: None });
+        }
+        for &pg in pages.iter() {
+            q.push(Op::Unmap { lvl: 1, page: pg });
+        }
+        q.push(if r.chance(1, 2) { Op::CleanUp } else { Op::CleanRange { start: a, end: a | 0x3fff_f000 } });
+        let first = q.remove(0);
+        env.pending.borrow_mut().extend(q);
+        return first;
+    }
+    if r.chance(1, 30) {
+        let a = gen_page(r, u, 1);
+        let region = a & !0x1f_ffff;
+        let b = region | (r.below(512) << 12);
+        let pf = if r.chance(1, 2) { Some(gen_parent_flags(r)) } else { None };
+        let mk = |r: &mut Rng, page: u64, pflags: Option<u64>| Op::Map { lvl: 1, page, frame: gen_frame(r, env, 1), flags: gen_leaf_flags(r, 1), pflags };
+        let mut q: Vec<Op> = Vec::new();
+        match r.below(5) {
+            4 => {
+                // the same frame identity-mapped twice (other flags the second time), or mapped at its own address first
+                let lv = 1 + r.below(3) as u8;
+                let size: u64 = 1 << (12 + 9 * (lv as u32 - 1));
+                let mut frame = gen_page(r, u, lv) & 0x7fff_ffff_ffff & !(size - 1);
+                if let Some(ri) = env.rec {
+                    if (frame >> 39) & 0x1ff == ri as u64 {
+                        frame ^= 1 << 39;
+                        if (frame >> 39) & 0x1ff == ri as u64 {
+                            frame ^= 2 << 39;
+                        }
+                    }
+                }
+                if r.chance(1, 2) {
+                    q.push(Op::IdentityMap { lvl: lv, frame, flags: gen_leaf_flags(r, lv) });
+                } else {
+                    q.push(Op::Map { lvl: lv, page: frame, frame, flags: gen_leaf_flags(r, lv), pflags: pf });
+                }
+                q.push(Op::IdentityMap { lvl: lv, frame, flags: gen_leaf_flags(r, lv) });
+                q.push(Op::TranslatePage { lvl: lv, page: frame });
+            }
+            0 => {
+                // map, unmap, clean up the region, map a neighbour with the same parent flags
+                q.push(mk(r, a, pf));
+                q.push(Op::Unmap { lvl: 1, page: a });
+                q.push(if r.chance(1, 2) { Op::CleanUp } else { Op::CleanRange { start: region, end: region | 0x1f_f000 } });
+                q.push(mk(r, b, pf));
+                q.push(Op::TranslatePage { lvl: 1, page: b });
+            }
+            1 => {
+                // map, take rights away from a parent entry, map a neighbour asking for them again
+                q.push(mk(r, a, Some(P | W | U)));
+                q.push(Op::SetParent { lvl: 1, n: *r.pick(&[4u8, 3, 2]), page: a, flags: P | (r.next() & (1 << 63)) });
+                q.push(mk(r, b, Some(P | W | U)));
+            }
+            2 => {
+                // a huge page replaced by small pages in the same place, and back
+                let big = region;
+                q.push(Op::Map { lvl: 2, page: big, frame: gen_frame(r, env, 2), flags: gen_leaf_flags(r, 2), pflags: pf });
+                q.push(Op::Unmap { lvl: 2, page: big });
+                q.push(mk(r, a, pf));
+                q.push(Op::Unmap { lvl: 1, page: a });
+                q.push(Op::CleanRange { start: region, end: region | 0x1f_f000 });
+                q.push(Op::Map { lvl: 2, page: big, frame: gen_frame(r, env, 2), flags: gen_leaf_flags(r, 2), pflags: pf });
+            }
+            _ => {
+                // the same page mapped, changed, unmapped and mapped again
+                q.push(mk(r, a, pf));
+                q.push(Op::UpdateFlags { lvl: 1, page: a, flags: gen_leaf_flags(r, 1) });
+                q.push(Op::Unmap { lvl: 1, page: a });
+                q.push(mk(r, a, pf));
+            }
+        }
+        let first = q.remove(0);
+        env.pending.borrow_mut().extend(q);
+        return first;
+    }
     let lvl = match r.below(10) {
         0..=5 => 1,
         6..=8 => 2,
@@ -996,6 +1087,10 @@ fn step_desynced(env: &mut Env, op: &Op, rep: &mut Report, r: &mut Rng, mon: &Mo
     let is_clean = matches!(op, Op::CleanUp | Op::CleanRange { .. });
     let pre_dump = hwwalk::dump_skip(&st, root, env.rec);
     let pre_leaves = leaf_entries_incl_parked(&st, root, env.rec);
+    let pre_walk = match op {
+        Op::Unmap { page, .. } => Some(hwwalk::walk(&st, root, *page)),
+        _ => None,
+    };
     env.last_pf.borrow_mut().clear();
     env.history.push(op.to_json());
     let out = env.exec(op);
@@ -1029,6 +1124,14 @@ fn step_desynced(env: &mut Env, op: &Op, rep: &mut Report, r: &mut Rng, mon: &Mo
     if is_clean {
         released_frames_untouched(env, op, rep); // (before check_cleanup, which repeats the call)
         check_cleanup(env, op, &pre_dump, &post, &log, rep);
+    }
+    // model-free: a successful unmap removed a mapping the MMU would have used, of that size, and returns its frame
+    if let (Out::UnmapOk { frame, .. }, Some(w), Op::Unmap { lvl, page }) = (&out, pre_walk, op) {
+        let size = 1u64 << (12 + 9 * (*lvl as u32 - 1));
+        let ok = matches!(w, Walk::Mapped { pa, size: s, .. } if s == size && pa & !(size - 1) == *frame);
+        if !ok {
+            viol(rep, env, "C02", format!("{}|{}|Ok-for-a-page-the-tables-did-not-map-at-that-size", kname, opn), op, vec![("page", J::hex(*page)), ("hardware_walk_before", J::s(format!("{:x?}", w))), ("returned_frame", J::hex(*frame))]);
+        }
     }
     // model-free failure atomicity (C02): a call that reports an error - or only answers a question - leaves every
     // leaf entry of the hierarchy, present or not, exactly as it was; whatever state the tables are in
@@ -1128,7 +1231,7 @@ fn step_synced(env: &mut Env, op: &Op, fail: Fail, rep: &mut Report, r: &mut Rng
     if let Some((prop, kind)) = judge(&applied.exp, &out, op) {
         // a wrong flush token, and a translate_page that reports a mapping of a size that is not there, are also
         // statements about translations that the history does not dictate (C01)
-        if prop == "C11" || (matches!(op, Op::TranslatePage { .. }) && out.is_ok() && kind.starts_with("Ok-for-a-size")) {
+        if prop == "C11" || (matches!(op, Op::TranslatePage { .. }) && out.is_ok() && kind.starts_with("Ok-for-a-size")) || (matches!(op, Op::Map { .. } | Op::IdentityMap { .. }) && out.is_ok() && prop == "C02") {
             viol(rep, env, "C01", format!("{}|{}|{}|{}", kname, opn, cls_sig(&cls), kind), op, vec![("expected", J::s(format!("{:?}", applied.exp))), ("got", J::s(format!("{:?}", out)))]);
         }
         viol(rep, env, prop, format!("{}|{}|{}|{}", kname, opn, cls_sig(&cls), kind), op, vec![("expected", J::s(format!("{:?}", applied.exp))), ("got", J::s(format!("{:?}", out))), ("state_class", J::s(cls.clone()))]);
@@ -1791,18 +1894,37 @@ pub fn run_history_ext(kind: Kind, r: &mut Rng, rep: &mut Report, focus: &str, l
                 st.fail_at = None;
             }
             crate::util::fault_means("C09", format!("{}|history-through-one-mapper-object|fatal-fault-in-mapper-code", kind.name()), J::obj(vec![("env", J::s(env.desc.clone()))]));
+            let mut replay_wild: Vec<(Op, u64, String)> = Vec::new();
+            let mut replay_f2p: Vec<(Op, u64)> = Vec::new();
             let outs: Result<Vec<String>, String> = env.bracket(|| {
                 catch_msg(|| {
                     let mut alloc = env.arena.allocator();
                     with_mapper!(env, |m| {
                         let mut v: Vec<String> = Vec::new();
                         for (op, _) in lifetime_trace.iter() {
+                            // memory-safety monitors of the replay: which frames are free before the call, and their bytes
+                            let (free_before, snap): (Vec<usize>, Vec<u64>) = {
+                                let mut st = env.arena.st();
+                                st.begin_call();
+                                st.fail_at = None;
+                                ((0..st.n()).filter(|&i| st.role[i] == Role::Free || st.role[i] == Role::Data).collect(), st.snapshot())
+                            };
                             // a panic ends one call, not the replay (the mapper object lives on, as after catch_unwind)
                             let o = match catch_msg(|| exec_on(&mut m, op, &mut alloc)) {
                                 Ok(o) => o,
                                 Err(msg) => Out::Panic(msg),
                             };
                             v.push(o.short());
+                            {
+                                let st = env.arena.st();
+                                let released: Vec<usize> = st.poison_copy.iter().map(|x| x.0).collect();
+                                if let Some(&i) = free_before.iter().find(|&&i| (st.role[i] == Role::Free || st.role[i] == Role::Data) && !released.contains(&i) && (0..512).any(|k| st.read(i, k) != snap[i * 512 + k])) {
+                                    replay_wild.push((op.clone(), st.phys[i], format!("{:?}", st.role[i])));
+                                }
+                                if let Some(b) = st.f2p_log.iter().find(|x| !x.1) {
+                                    replay_f2p.push((op.clone(), b.0));
+                                }
+                            }
                             // the software MMU's on-demand pages are its TLB: flushed between calls, as after every call of
                             // the per-call runs (the mapper keeps only the address of the level-4 table)
                             #[cfg(not(miri))]
@@ -1833,6 +1955,12 @@ pub fn run_history_ext(kind: Kind, r: &mut Rng, rep: &mut Report, focus: &str, l
                         rep.violation_for("C01", &format!("{}|history-through-one-mapper-object|tables-differ-from-fresh-mapper-per-call", kind.name()), J::obj(vec![("env", J::s(env.desc.clone())), ("difference(first = fresh mapper per call)", J::s(d)), ("last_calls", tail(lifetime_trace.len() - 1))]));
                     }
                 }
+            }
+            if let Some((op, ph, role)) = replay_wild.first() {
+                rep.violation_for("C09", &format!("{}|{}|history-through-one-mapper-object|modified-non-table-memory|{}-frame", kind.name(), op.name(), role), J::obj(vec![("env", J::s(env.desc.clone())), ("op", op.to_json()), ("frame", J::hex(*ph))]));
+            }
+            if let Some((op, ph)) = replay_f2p.first() {
+                rep.violation_for("C09", &format!("{}|{}|history-through-one-mapper-object|frame_to_pointer-for-non-table-frame", kind.name(), op.name()), J::obj(vec![("env", J::s(env.desc.clone())), ("op", op.to_json()), ("frame", J::hex(*ph))]));
             }
             env.model = model_end;
             env.history = hist;
